@@ -10,6 +10,8 @@
 (*   SS(inv,p,raised,exc,res)  Bijections.simion_and_schmidt               *)
 (*   Family(name,p,res)     permuta.bisc.perm_properties.<name>            *)
 (*   Group(n,res)           dihedral_group(n) as a list                    *)
+(*   PassChain(dev,p,k,res) k passes, each applied by the real code to the  *)
+(*                          object the previous pass returned               *)
 (* Verdicts are total: a failing event appends its index and clause.       *)
 (***************************************************************************)
 EXTENDS Devices, Json, IOUtils
@@ -22,6 +24,9 @@ Judge(ok, clause) == bad' = IF ok THEN bad ELSE Flag(clause)
 
 PassOf(dev, p) == IF dev = "quick" THEN DvQuickPass(p) ELSE DvPass(dev, p)
 
+RECURSIVE PassesOf(_, _, _)
+PassesOf(dev, p, k) == IF k = 0 THEN p ELSE CHOOSE r \in {PassesOf(dev, q, k - 1) : q \in {PassOf(dev, p)}} : TRUE
+TPassChain == Ev.op = "PassChain" /\ Judge(Ev.res = PassesOf(Ev.dev, Ev.p, Ev.k), "PassChainIsKPasses")
 TPass == Ev.op = "Pass" /\ Judge(Ev.res = PassOf(Ev.dev, Ev.p), "PassOutput")
 TSortable == Ev.op = "Sortable" /\ Judge(Ev.res = DvIsIdentity(PassOf(Ev.dev, Ev.p)), "SortableIffIdentity")
 TWest == Ev.op = "West" /\ Judge(Ev.res = DvIsIdentity(DvPasses("stack", Ev.p, Ev.k)), "WestKPasses")
@@ -54,6 +59,6 @@ TGroup == Ev.op = "Group" /\
                 /\ Cardinality(T) = (IF Ev.n < 3 THEN 0 ELSE 2 * Ev.n), "DihedralGroupExact")
 
 TInit == l = 1 /\ bad = <<>>
-TNext == l <= Len(Trace) /\ l' = l + 1 /\ (TPass \/ TSortable \/ TWest \/ TCount \/ TSS \/ TFamily \/ TGroup)
+TNext == l <= Len(Trace) /\ l' = l + 1 /\ (TPass \/ TPassChain \/ TSortable \/ TWest \/ TCount \/ TSS \/ TFamily \/ TGroup)
 TraceDone == l = Len(Trace) + 1 => PrintT(ToJson([verdict |-> bad, drift |-> <<>>, n |-> Len(Trace)]))
 =============================================================================
